@@ -14,11 +14,73 @@ created by `assign_fixed(k)` (the chip's shortcuts `x == &zero`, `x == &one` com
 -/
 namespace MidnightZK.C05
 
+/-- Name of a cell as far as the foreign chip's own regions are concerned: `a r i` limb `i` of the
+`r`-th group of freshly assigned range-checked limbs (`assign`, `assign_mul`), `n r i` output limb
+`i` of the `r`-th "Foreign norm" region, `k v` a fixed cell holding `v`, `o` any other cell
+(computed by a native instruction). -/
+inductive CellName where
+  | a (r i : Nat)
+  | n (r i : Nat)
+  | k (v : Int)
+  | o
+  deriving Repr, DecidableEq
+
+def CellName.fmt : CellName → String
+  | .a r i => s!"a{r}.{i}"
+  | .n r i => s!"n{r}.{i}"
+  | .k v => s!"K{v}"
+  | .o => "o"
+
+/-- What the foreign chip emits besides native arithmetic (the trace the harness reads back from
+the real synthesis: regions by name, copy constraints, and the bit length of every range check as
+logged at the real decomposition chip). -/
+inductive Ev where
+  /-- `n` fresh limbs, limb `i` range-checked `< 2^bits[i]` (`assign_lower_than_fixed`) -/
+  | asg (r : Nat) (bits : List Nat)
+  /-- region "Foreign norm": copied-in input limbs, range checks of the output limbs, of `u`, of
+  every `vj` (`assert_lower_than_fixed` after the region) -/
+  | norm (r : Nat) (x : List CellName) (zBits : List Nat) (uBits : Nat) (vBits : List Nat)
+  /-- region "Foreign multiplication": copied-in `x`, `y`, `z`, range checks of `u`, `vj` -/
+  | mul (r : Nat) (x y z : List CellName) (uBits : Nat) (vBits : List Nat)
+  /-- native equality constraints between named cells (`assert_equal`, `assert_equal_to_fixed`) -/
+  | eq (pairs : List (CellName × CellName))
+  /-- named cells bound to the instance column -/
+  | pub (cells : List CellName)
+  /-- native decompositions `(cell, bit length, limb size)` of named cells -/
+  | dec (items : List (CellName × Nat × Nat))
+  deriving Repr
+
+def fmtNames (l : List CellName) : String := ",".intercalate (l.map CellName.fmt)
+def fmtNats (l : List Nat) : String := if l.isEmpty then "-" else ",".intercalate (l.map toString)
+
+def Ev.fmt : Ev → String
+  | .asg r bits => s!"A{r}[{fmtNats bits}]"
+  | .norm r x z u v => s!"N{r}[x:{fmtNames x};z:{fmtNats z};u:{u};v:{fmtNats v}]"
+  | .mul r x y z u v => s!"M{r}[x:{fmtNames x};y:{fmtNames y};z:{fmtNames z};u:{u};v:{fmtNats v}]"
+  | .eq ps =>
+    let one (p : CellName × CellName) : String :=
+      let a := p.1.fmt
+      let b := p.2.fmt
+      if a ≤ b then s!"{a}={b}" else s!"{b}={a}"
+    "E[" ++ ",".intercalate (ps.map one) ++ "]"
+  | .pub cs => s!"P[{fmtNames cs}]"
+  | .dec items => "D[" ++ ",".intercalate (items.map (fun t => s!"{t.1.fmt}:{t.2.1}/{t.2.2}")) ++ "]"
+
 structure FVar where
   limbs : List Int
   bounds : List (Int × Int)
   fixedOf : Option Int
+  /-- names of the limb cells -/
+  src : List CellName := []
   deriving Repr
+
+/-- Counters of assign groups / norm regions / mul regions, and the events of the current
+operation. -/
+structure TSt where
+  nA : Nat := 0
+  nN : Nat := 0
+  nM : Nat := 0
+  ev : Array Ev := #[]
 
 inductive Val where
   | fe (x : FVar)
@@ -35,16 +97,25 @@ inductive Stop where
   | panic
   deriving Repr
 
+/-- Synthesis monad of the model: the trace state over "stops". -/
+abbrev M := StateT TSt (Except Stop)
+
+def emit (e : Ev) : M Unit := modify (fun s => { s with ev := s.ev.push e })
+
 /-- Configuration of the chip for one parameter set (what `FieldChip::configure` computes). -/
 structure ChipCfg where
   P : Params
+  /-- `MulConfig::bounds` -/
+  mulB : AuxBounds
+  /-- `NormConfig::bounds` -/
   normB : AuxBounds
+  /-- `well_formed_log2_bounds` -/
   wfLog2 : List Nat
 
 def ChipCfg.ofParams (P : Params) : Option ChipCfg :=
-  match P.normBounds, P.wellFormedLog2Bounds with
-  | .ok nb, some wf => some ⟨P, nb, wf⟩
-  | _, _ => none
+  match P.mulBounds, P.normBounds, P.wellFormedLog2Bounds with
+  | .ok mb, .ok nb, some wf => some ⟨P, mb, nb, wf⟩
+  | _, _, _ => none
 
 namespace ChipCfg
 
@@ -63,11 +134,33 @@ def limbsOf (c : ChipCfg) (v : Int) : List Int := (toLimbs c.L c.n ((v - 1) % c.
 /-- `InnerValue::value`: `1 + Σ baseⁱ·xᵢ` reduced modulo `m`. -/
 def value (c : ChipCfg) (x : FVar) : Int := (1 + limbsValue c.L x.limbs) % c.m
 
-/-- `AssignmentInstructions::assign`. -/
-def assign (c : ChipCfg) (v : Int) : FVar := ⟨c.limbsOf v, c.wfBounds, none⟩
+/-- Bit length enforced on the quotient cell `u`: `assert_lower_than_fixed(u, u_max)` with
+`u_max` a power of two ends in `assert_less_than_pow2(u, log2 u_max)`. -/
+def uBits (b : AuxBounds) : Nat := Nat.log2 b.uMax.toNat
 
-/-- `AssignmentInstructions::assign_fixed`. -/
-def assignFixed (c : ChipCfg) (v : Int) : FVar := ⟨c.limbsOf v, c.wfBounds, some (v % c.m)⟩
+/-- Bit lengths enforced on the cells `vj`. -/
+def vBits (b : AuxBounds) : List Nat := b.vs.map (fun vb => Nat.log2 vb.2.toNat)
+
+/-- A fresh group of `n` limbs, limb `i` assigned by `assign_lower_than_fixed(·, 2^wf[i])`
+(`assign`, and the result of `assign_mul`). -/
+def freshLimbs (c : ChipCfg) (v : Int) : M FVar := do
+  let st ← get
+  let r := st.nA
+  set { st with nA := r + 1, ev := st.ev.push (.asg r c.wfLog2) }
+  pure ⟨c.limbsOf v, c.wfBounds, none, (List.range c.n).map (CellName.a r)⟩
+
+/-- `AssignmentInstructions::assign`. -/
+def assign (c : ChipCfg) (v : Int) : M FVar := c.freshLimbs v
+
+/-- `AssignmentInstructions::assign_fixed`: cached fixed cells, no range check. -/
+def assignFixed (c : ChipCfg) (v : Int) : FVar :=
+  ⟨c.limbsOf v, c.wfBounds, some (v % c.m), (c.limbsOf v).map CellName.k⟩
+
+/-- `assign_as_public_input`: `assign_many` (no range checks) then exposure. -/
+def assignPublic (c : ChipCfg) (v : Int) : M FVar := do
+  let x : FVar := ⟨c.limbsOf v, c.wfBounds, none, List.replicate c.n .o⟩
+  emit (.pub x.src)
+  pure x
 
 /-- `AssignedField::is_well_formed`. -/
 def isWellFormed (c : ChipCfg) (x : FVar) : Bool :=
@@ -75,20 +168,34 @@ def isWellFormed (c : ChipCfg) (x : FVar) : Bool :=
 
 /-- `make_canonical`: panics when a tracked bound exceeds `max_limb_bound`; otherwise the
 normalization gate's witness (`norm::normalize`). -/
-def makeCanonical (c : ChipCfg) (x : FVar) : Except Stop FVar :=
+def canonGuard (c : ChipCfg) (x : FVar) : Bool :=
   let lim := c.P.maxLimbBound
-  if x.bounds.any (fun b => decide (b.1 < -lim) || decide (b.2 > lim)) then .error .panic
-  else .ok ⟨(c.P.normWitness c.normB x.limbs).1, c.wfBounds, none⟩
+  !(x.bounds.any (fun b => decide (b.1 < -lim) || decide (b.2 > lim)))
+
+/-- The event of `norm::normalize` on input `x` as the `r`-th norm region: input limbs copied in,
+output limbs range-checked against the well-formed widths, `u < u_max`, `vj < vj_max`. -/
+def normEvent (c : ChipCfg) (r : Nat) (x : FVar) : Ev :=
+  .norm r x.src c.wfLog2 (uBits c.normB) (vBits c.normB)
+
+def makeCanonical (c : ChipCfg) (x : FVar) : M FVar := do
+  if !c.canonGuard x then throw .panic
+  let st ← get
+  let r := st.nN
+  set { st with nN := r + 1, ev := st.ev.push (c.normEvent r x) }
+  pure ⟨(c.P.normWitness c.normB x.limbs).1, c.wfBounds, none, (List.range c.n).map (CellName.n r)⟩
 
 /-- `normalize`. -/
-def normalize (c : ChipCfg) (x : FVar) : Except Stop FVar :=
-  if c.isWellFormed x then .ok x else c.makeCanonical x
+def normalize (c : ChipCfg) (x : FVar) : M FVar :=
+  if c.isWellFormed x then pure x else c.makeCanonical x
 
 /-- `normalize_if_approaching_limit` (threshold `max_limb_bound / 10`). -/
-def normalizeIfApproaching (c : ChipCfg) (x : FVar) : Except Stop FVar :=
+def normalizeIfApproaching (c : ChipCfg) (x : FVar) : M FVar :=
   let thr := c.P.maxLimbBound / 10
   if x.bounds.any (fun b => decide (b.1 < -thr) || decide (b.2 > thr)) then c.makeCanonical x
-  else .ok x
+  else pure x
+
+/-- Cells computed by a native instruction. -/
+def others (c : ChipCfg) : List CellName := List.replicate c.n .o
 
 /-- The per-limb constants `[k, 0, …, 0]`. -/
 def lsConst (c : ChipCfg) (k : Int) : List Int := k :: List.replicate (c.n - 1) 0
@@ -101,85 +208,96 @@ def zipB3 (xs ys : List (Int × Int)) (cs : List Int)
   ((xs.zip ys).zip cs).map (fun t => f t.1.1 t.1.2 t.2)
 
 /-- `ArithInstructions::add`. -/
-def add (c : ChipCfg) (x y : FVar) : Except Stop FVar :=
-  if x.fixedOf = some 0 then .ok y
-  else if y.fixedOf = some 0 then .ok x
+def add (c : ChipCfg) (x y : FVar) : M FVar :=
+  if x.fixedOf = some 0 then pure y
+  else if y.fixedOf = some 0 then pure x
   else
     let cs := c.lsConst 1
     c.normalizeIfApproaching
       ⟨zip3 x.limbs y.limbs cs (fun a b k => a + b + k),
-       zipB3 x.bounds y.bounds cs (fun a b k => (a.1 + b.1 + k, a.2 + b.2 + k)), none⟩
+       zipB3 x.bounds y.bounds cs (fun a b k => (a.1 + b.1 + k, a.2 + b.2 + k)), none, c.others⟩
 
 /-- `ArithInstructions::sub`. -/
-def sub (c : ChipCfg) (x y : FVar) : Except Stop FVar :=
-  if y.fixedOf = some 0 then .ok x
+def sub (c : ChipCfg) (x y : FVar) : M FVar :=
+  if y.fixedOf = some 0 then pure x
   else
     let cs := c.lsConst (-1)
     c.normalizeIfApproaching
       ⟨zip3 x.limbs y.limbs cs (fun a b k => a - b + k),
-       zipB3 x.bounds y.bounds cs (fun a b k => (a.1 - b.2 + k, a.2 - b.1 + k)), none⟩
+       zipB3 x.bounds y.bounds cs (fun a b k => (a.1 - b.2 + k, a.2 - b.1 + k)), none, c.others⟩
 
 /-- `ArithInstructions::neg`. -/
-def neg (c : ChipCfg) (x : FVar) : Except Stop FVar :=
-  if x.fixedOf = some 0 then .ok (c.assignFixed 0)
+def neg (c : ChipCfg) (x : FVar) : M FVar :=
+  if x.fixedOf = some 0 then pure (c.assignFixed 0)
   else
     let cs := c.lsConst (-2)
     c.normalizeIfApproaching
       ⟨(x.limbs.zip cs).map (fun t => -t.1 + t.2),
-       (x.bounds.zip cs).map (fun t => (-t.1.2 + t.2, -t.1.1 + t.2)), none⟩
+       (x.bounds.zip cs).map (fun t => (-t.1.2 + t.2, -t.1.1 + t.2)), none, c.others⟩
 
 /-- `add_constant`. -/
-def addConstant (c : ChipCfg) (x : FVar) (k : Int) : Except Stop FVar :=
+def addConstant (c : ChipCfg) (x : FVar) (k : Int) : M FVar :=
   let k := k % c.m
-  if k = 0 then .ok x
+  if k = 0 then pure x
   else
     let ks := (toLimbs c.L c.n k).1
+    -- native `add_constants` returns the input cell itself where the constant limb is zero
     c.normalizeIfApproaching
       ⟨(x.limbs.zip ks).map (fun t => t.1 + t.2),
-       (x.bounds.zip ks).map (fun t => (t.1.1 + t.2, t.1.2 + t.2)), none⟩
+       (x.bounds.zip ks).map (fun t => (t.1.1 + t.2, t.1.2 + t.2)), none,
+       (x.src.zip ks).map (fun t => if t.2 = 0 then t.1 else .o)⟩
 
 /-- Modular inverse in the emulated (prime) field. -/
 def inv (c : ChipCfg) (v : Int) : Int := (invMod (v % c.m).toNat c.m.toNat : Nat)
 
+/-- The event of `mul::assert_mul(l, y, rr)` (`l·y = rr`) as the `r`-th multiplication region. -/
+def mulEvent (c : ChipCfg) (r : Nat) (l y rr : FVar) : Ev :=
+  .mul r l.src y.src rr.src (uBits c.mulB) (vBits c.mulB)
+
 /-- `assign_mul`: the product (or quotient) as a fresh well-formed element; `Err` on a division
 by zero (`error_if_known_and`). -/
-def assignMul (c : ChipCfg) (x y : FVar) (division : Bool) : Except Stop FVar := do
+def assignMul (c : ChipCfg) (x y : FVar) (division : Bool) : M FVar := do
   let x ← c.normalize x
   let y ← c.normalize y
   let xv := c.value x
   let yv := c.value y
-  if division && yv == 0 then .error .err
+  if division && yv == 0 then throw .err
   else
     let zv := if division then (xv * c.inv yv) % c.m else (xv * yv) % c.m
-    .ok ⟨c.limbsOf zv, c.wfBounds, none⟩
+    let z ← c.freshLimbs zv
+    let st ← get
+    let r := st.nM
+    let e := if division then c.mulEvent r z y x else c.mulEvent r x y z
+    set { st with nM := r + 1, ev := st.ev.push e }
+    pure z
 
 /-- `mul_by_constant`. -/
-def mulByConstant (c : ChipCfg) (x : FVar) (k : Int) : Except Stop FVar :=
+def mulByConstant (c : ChipCfg) (x : FVar) (k : Int) : M FVar :=
   let k := k % c.m
-  if k = 0 then .ok (c.assignFixed 0)
-  else if k = 1 then .ok x
+  if k = 0 then pure (c.assignFixed 0)
+  else if k = 1 then pure x
   else
     let lim := c.P.maxLimbBound
     let thr := lim / (1000 * c.P.base)
     if k > thr then c.assignMul x (c.assignFixed k) false
     else do
       let x ← if x.bounds.any (fun b => decide (b.1 * k < -lim) || decide (b.2 * k + k > lim))
-        then c.normalize x else .ok x
+        then c.normalize x else pure x
       let cs := c.lsConst (k - 1)
       c.normalizeIfApproaching
         ⟨(x.limbs.zip cs).map (fun t => k * t.1 + t.2),
-         (x.bounds.zip cs).map (fun t => (t.1.1 * k + t.2, t.1.2 * k + t.2)), none⟩
+         (x.bounds.zip cs).map (fun t => (t.1.1 * k + t.2, t.1.2 * k + t.2)), none, c.others⟩
 
 /-- `ArithInstructions::mul`. -/
-def mul (c : ChipCfg) (x y : FVar) (k : Option Int) : Except Stop FVar :=
-  if x.fixedOf = some 0 ∨ y.fixedOf = some 0 then .ok (c.assignFixed 0)
+def mul (c : ChipCfg) (x y : FVar) (k : Option Int) : M FVar :=
+  if x.fixedOf = some 0 ∨ y.fixedOf = some 0 then pure (c.assignFixed 0)
   else if x.fixedOf = some 1 then
     match k with
-    | none => .ok y
+    | none => pure y
     | some k => c.mulByConstant y k
   else if y.fixedOf = some 1 then
     match k with
-    | none => .ok x
+    | none => pure x
     | some k => c.mulByConstant x k
   else do
     let y ← match k with
@@ -191,14 +309,15 @@ def mul (c : ChipCfg) (x y : FVar) (k : Option Int) : Except Stop FVar :=
 def limbsOfZero (c : ChipCfg) : List Int := (toLimbs c.L c.n (c.m - 1)).1
 
 /-- `ZeroInstructions::is_zero`: normalise, compare with the limbs of zero. -/
-def isZero (c : ChipCfg) (x : FVar) : Except Stop Bool := do
+def isZero (c : ChipCfg) (x : FVar) : M Bool := do
   let x ← c.normalize x
   pure (x.limbs == c.limbsOfZero)
 
 /-- `ControlFlowInstructions::select`. -/
 def select (b : Bool) (x y : FVar) : FVar :=
   ⟨if b then x.limbs else y.limbs,
-   (x.bounds.zip y.bounds).map (fun t => (min t.1.1 t.2.1, max t.1.2 t.2.2)), none⟩
+   (x.bounds.zip y.bounds).map (fun t => (min t.1.1 t.2.1, max t.1.2 t.2.2)), none,
+   x.src.map (fun _ => .o)⟩
 
 /-- `assigned_field_from_limb`. -/
 def fromLimb (c : ChipCfg) (v : Int) : FVar :=
@@ -206,10 +325,11 @@ def fromLimb (c : ChipCfg) (v : Int) : FVar :=
   let b0 := match wf with
     | b :: _ => (b.1 - 1, b.2 - 1)
     | [] => (0, 0)
-  ⟨(v - 1) :: List.replicate (c.n - 1) 0, b0 :: wf.drop 1, none⟩
+  ⟨(v - 1) :: List.replicate (c.n - 1) 0, b0 :: wf.drop 1, none,
+   .o :: List.replicate (c.n - 1) (.k 0)⟩
 
 /-- `linear_combination`. -/
-def linearCombination (c : ChipCfg) (terms : List (Int × FVar)) (k : Int) : Except Stop FVar := do
+def linearCombination (c : ChipCfg) (terms : List (Int × FVar)) (k : Int) : M FVar := do
   let mut acc := c.assignFixed k
   for t in terms do
     let prod ← c.mulByConstant t.2 t.1
@@ -230,13 +350,16 @@ def bitsValue : List Bool → Int
 /-- `assigned_to_le_bits`: the bits, whether the honest witness satisfies the constraints, or a
 stop. -/
 def toLeBits (c : ChipCfg) (x : FVar) (nbBits : Option Nat) (canonical : Bool) :
-    Except Stop (List Bool × Bool) := do
+    M (List Bool × Bool) := do
   let x1 ← c.addConstant x 1
   let x2 ← if canonical then c.makeCanonical x1 else c.normalize x1
+  -- native `assigned_to_le_bits(limb, Some(wf), true)` = `decompose_fixed_limb_size(limb, wf, 1)`
+  let items := ((x2.src.zip c.wfLog2).filter (fun t => t.1 ≠ .o)).map (fun t => (t.1, t.2, 1))
+  if !items.isEmpty then emit (.dec items)
   -- each limb is decomposed against its well-formed width (a limb that does not fit makes the
   -- native decomposition panic during witness generation)
   let parts := (x2.limbs.zip c.wfLog2).map (fun t => toBits t.2 t.1)
-  if parts.any (fun p => !p.2) then .error .panic
+  if parts.any (fun p => !p.2) then throw .panic
   else
     let bits := parts.flatMap (·.1)
     let nb := nbBits.getD c.numBits
@@ -255,25 +378,30 @@ def chunksOf {α : Type} : Nat → Nat → List α → List (List α)
 
 /-- `assigned_to_le_chunks`. -/
 def toLeChunks (c : ChipCfg) (x : FVar) (w : Nat) (nbChunks : Option Nat) :
-    Except Stop (List Int × Bool) := do
-  if w = 0 then .error .panic
+    M (List Int × Bool) := do
+  if w = 0 then throw .panic
   else if c.L % w = 0 then
     let perLimb := c.L / w
     let x1 ← c.addConstant x 1
     let x2 ← c.normalize x1
     let mut missing := nbChunks.getD (perLimb * c.n)
     let mut out : List Int := []
-    for limb in x2.limbs do
+    let mut items : List (CellName × Nat × Nat) := []
+    for (limb, nm) in x2.limbs.zip x2.src do
       let cnt := min missing perLimb
       missing := missing - cnt
+      if nm ≠ .o then items := items ++ [(nm, w * cnt, w)]
       -- native `assigned_to_le_chunks(limb, w, Some(cnt))`
       let mut v := limb
       let mut cs : List Int := []
       for _ in [0:cnt] do
         cs := cs ++ [v % (2 : Int) ^ w]
         v := v / (2 : Int) ^ w
-      if v ≠ 0 then throw .panic
+      if v ≠ 0 then
+        if !items.isEmpty then emit (.dec items)
+        throw .panic
       out := out ++ cs
+    if !items.isEmpty then emit (.dec items)
     -- more chunks requested than the limbs hold: padded with (constant) zeros
     pure (out ++ List.replicate missing 0, true)
   else
